@@ -17,8 +17,8 @@ def consts_text(consts):
     return "\n".join(lines)
 
 
-def trace_cfg(consts, props, extra=""):
-    return ("SPECIFICATION Spec\nCONSTANTS\n%s\n  TraceFile = \"trace.ndjson\"\n  Props = {%s}\n%s\nCHECK_DEADLOCK FALSE\n"
+def trace_cfg(consts, props, extra="", spec="Spec"):
+    return ("SPECIFICATION " + spec + "\nCONSTANTS\n%s\n  TraceFile = \"trace.ndjson\"\n  Props = {%s}\n%s\nCHECK_DEADLOCK FALSE\n"
             % (consts_text(consts), ",".join('"%s"' % p for p in sorted(props)), extra))
 
 
@@ -43,12 +43,12 @@ def validate(scr, fam, behs, seed, tier, props, tag):
             write_ndjson(pth, ls)
             consts = dict(fam["trace_consts"])
             consts.update(consts_by_key[key])
-            r = run_trace(scr, fam["trace_module"], trace_cfg(consts, props, fam.get("trace_extra", "")), pth, expect_lines=len(ls))
+            r = run_trace(scr, fam["trace_module"], trace_cfg(consts, props, fam.get("trace_extra", ""), fam.get("trace_spec", "Spec")), pth, expect_lines=len(ls))
             for k in ("viol", "drift", "panic", "note"):
                 merged[k] += r[k]
             merged["done"] = [a + b for a, b in zip(merged["done"], r["done"])]
         return merged, lines
-    res = run_trace(scr, fam["trace_module"], trace_cfg(fam["trace_consts"], props, fam.get("trace_extra", "")),
+    res = run_trace(scr, fam["trace_module"], trace_cfg(fam["trace_consts"], props, fam.get("trace_extra", ""), fam.get("trace_spec", "Spec")),
                     tr_path, expect_lines=len(lines))
     return res, lines
 
